@@ -406,7 +406,46 @@ class Executor:
         for st in stmts:
             self.exec_stmt(st, env)
 
+    # ---- slicing: statements that only feed names the contract declares irrelevant (`slice_out`) are not executed -------------------------
+    def sliced(self, st):
+        names = getattr(self.contract, "slice_out", ())
+        if not names:
+            return False
+
+        def base_name(e):
+            while isinstance(e, (ast.Subscript, ast.Attribute)):
+                e = e.value
+            return e.id if isinstance(e, ast.Name) else None
+
+        if isinstance(st, (ast.Assign, ast.AugAssign, ast.AnnAssign)):
+            targets = st.targets if isinstance(st, ast.Assign) else [st.target]
+            return all(base_name(t) in names for t in targets)
+        if isinstance(st, ast.Expr) and isinstance(st.value, ast.Call) and isinstance(st.value.func, ast.Attribute):
+            recv = base_name(st.value.func.value)
+            if recv in names:
+                return True
+            # a read-only probe whose arguments come from a sliced name, e.g. points.index(c.left_parent) with c drawn from a sliced list
+            if st.value.func.attr in ("index", "count") and any(base_name(a) in self._slice_bound for a in st.value.args):
+                return True
+            return False
+        if isinstance(st, ast.If):
+            return all(self.sliced(x) for x in st.body + st.orelse) and bool(st.body)
+        if isinstance(st, ast.For):
+            it_base = base_name(st.iter)
+            if it_base in names and isinstance(st.target, ast.Name):
+                self._slice_bound.add(st.target.id)
+            ok = all(self.sliced(x) for x in st.body) and bool(st.body)
+            return ok
+        return False
+
     def exec_stmt(self, st, env):
+        if getattr(self.contract, "slice_out", None):
+            if not hasattr(self, "_slice_bound"):
+                self._slice_bound = set()
+            if self.sliced(st):
+                self.dropped.add("sliced away at L%d (only feeds %s; its conditions are assumed free of side effects, a raise inside it is not modelled): %s"
+                                 % (st.lineno, "/".join(self.contract.slice_out), ast.unparse(st).splitlines()[0][:90]))
+                return None
         m = getattr(self, "s_" + type(st).__name__, None)
         if m is None:
             raise OutOfSubset("statement %s" % type(st).__name__, st)
@@ -925,6 +964,9 @@ class Executor:
     def e_Name(self, e, env):
         if e.id in env:
             return env[e.id]
+        if e.id in getattr(self.contract, "slice_out", ()):
+            from . import prelude
+            return Opaque(self.S.const("sliced." + e.id, prelude.U))      # a sliced-away name: an unknown python value
         if e.id in self.module_globals:
             return self.module_globals[e.id]
         from . import prelude
